@@ -8,3 +8,10 @@ MUTANTS = [
     {'name': 'piano range off by one', 'file': 'partitura/utils/music.py', 'old': '        pianoroll = pianoroll[21:109, :]', 'new': '        pianoroll = pianoroll[21:108, :]', 'expect': 'RANGE'}]
 
 NEUTRALS = []
+
+# changes made by sub-agents that were given only the property text (see /verif/seeded/<id>/): each must stay reported
+SEEDED = [
+    {'name': 'seeded change C13-r2', 'seed': 'C13-r2', 'expect': '|ROUND-all|'},
+    {'name': 'seeded change C13', 'seed': 'C13', 'expect': '|CLAMP|'},
+]
+MUTANTS += SEEDED
